@@ -42,6 +42,8 @@ def oracle(ctx, specs, k, rnd, dups):
         merged = None
     if merged is not None and vs:
         for pos, Tm in zip(("argument", "return", "yield"), merged):
+            if Tm is None:
+                return ctx.fail("C05/uncovered-value", [specs, k, "via-traces"], f"merged over call traces: the {pos} position, recorded in every trace, has no type at all")
             try:
                 witnessed(Tm, vt)
             except NotTight as e:
